@@ -128,19 +128,43 @@ def r17_2(ctx):
     # every token taken from the `tokens` iterator - by `.. , T = next(tokens)` in a while loop or by `for .., T in tokens`
     # - is yielded exactly once, unconditionally, in the iteration that consumed it
     sites = []
+    lt_name = _lt.qualname.split(".")[-1]
+
+    def is_source_call(e):
+        return isinstance(e, ast.Call) and (norm(e.func) == lt_name or norm(e.func).endswith("." + lt_name))
+    # names bound to the token stream: tokens = iter(line_tokenize()) / tokens = line_tokenize()
+    stream_names = set()
+    for x in walk_local(f.node):
+        if isinstance(x, ast.Assign) and len(x.targets) == 1 and isinstance(x.targets[0], ast.Name):
+            v = x.value
+            if isinstance(v, ast.Call) and norm(v.func) == "iter" and len(v.args) == 1:
+                v = v.args[0]
+            if is_source_call(v):
+                stream_names.add(x.targets[0].id)
+
+    def is_stream(e):
+        return (isinstance(e, ast.Name) and e.id in stream_names) or is_source_call(e)
     for lp in walk_local(f.node):
-        if isinstance(lp, ast.For) and norm(lp.iter) == "tokens" and isinstance(lp.target, ast.Tuple) and len(lp.target.elts) == 2:
+        if isinstance(lp, ast.For) and is_stream(lp.iter) and isinstance(lp.target, ast.Tuple) and len(lp.target.elts) == 2:
             sites.append((lp, norm(lp.target.elts[1])))
         if isinstance(lp, ast.While):
             for x in ast.walk(lp):
-                if isinstance(x, ast.Assign) and isinstance(x.targets[0], ast.Tuple) and len(x.targets[0].elts) == 2 and norm(x.value) == "next(tokens)":
+                if isinstance(x, ast.Assign) and isinstance(x.targets[0], ast.Tuple) and len(x.targets[0].elts) == 2 and isinstance(x.value, ast.Call) and norm(x.value.func) == "next" and x.value.args and is_stream(x.value.args[0]):
                     sites.append((lp, norm(x.targets[0].elts[1])))
-    ok = len(sites) >= 2
+    # every place that draws from the stream is one of those sites (a next() outside a loop, a second consumer, would take tokens
+    # that no yield accounts for)
+    draws = [x for x in walk_local(f.node) if (isinstance(x, ast.For) and is_stream(x.iter)) or (isinstance(x, ast.Call) and norm(x.func) == "next" and x.args and is_stream(x.args[0]))]
+    ok = len(sites) >= 1 and len(draws) == len(sites)
     for lp, tv in sites:
         top = [b for b in lp.body if isinstance(b, ast.Expr) and isinstance(b.value, ast.Yield) and isinstance(b.value.value, ast.Tuple) and norm(b.value.value.elts[0]) == tv]
         allys = [y for b in lp.body for y in ast.walk(b) if isinstance(y, ast.Yield)]
         if len(top) != 1 or len(allys) != 1:
             ok = False
+        else:
+            # nothing before the yield can leave the iteration without it
+            k = lp.body.index(top[0])
+            if any(isinstance(y, (ast.Continue, ast.Break, ast.Return)) for b in lp.body[:k] for y in ast.walk(b)) and not isinstance(lp, ast.While):
+                ok = False
     ctx.check(ok, f.fq, "skip loop yields (token, None)", f.where, "tokens before the range are still appended (unstyled): Text line k stays source line k",
               "tokens before the requested range are no longer appended to the Text: the line slicing in __rich_console__ (lines[line_offset:end_line]) and the unknown-lexer fallback (whole code) then disagree about which source line is line k")
 
